@@ -163,6 +163,16 @@ def deep_history(g, cfg, seed):
         h.apply(op)
         if r.random() < 0.6:
             h.apply({'op': 'add_fp', 'cid': g.new_cid(), 'length': g.size(), 'iso_path': join(p, g.iso_file_name(cfg.level)), 'rr_name': g.rr_name()})
+        if d == 8 and r.random() < 0.5:
+            # a directory with the same names at the relocation depth under another parent:
+            # two relocated directories that only their child links tell apart
+            par7 = p.rsplit('/', 1)[0]
+            par6 = par7.rsplit('/', 1)[0] or '/'
+            alt7 = join(par6, g.iso_dir_name(cfg.level))
+            if h.apply({'op': 'add_directory', 'iso_path': alt7, 'rr_name': g.rr_name()}).ok:
+                twin = join(alt7, p.rsplit('/', 1)[1])
+                if h.apply({'op': 'add_directory', 'iso_path': twin, 'rr_name': op['rr_name']}).ok:
+                    h.apply({'op': 'add_fp', 'cid': g.new_cid(), 'length': 11, 'iso_path': join(twin, g.iso_file_name(cfg.level)), 'rr_name': g.rr_name()})
         if d >= 7 and r.random() < 0.5:
             # sibling at the relocation depth
             h.apply({'op': 'add_directory', 'iso_path': join(p.rsplit('/', 1)[0] or '/', g.iso_dir_name(cfg.level)), 'rr_name': g.rr_name(long_bias=0.3)})
